@@ -28,6 +28,11 @@ BUILTIN_METHODS = {"read", "write", "get", "flush", "seek", "tell", "close", "it
                    "to_bytes", "from_bytes", "as_tuple", "scaleb", "create_decimal", "total_seconds", "timestamp", "astimezone",
                    "toordinal", "fromordinal", "isoformat", "bit_length", "pack", "unpack", "compress", "decompress", "open"}
 MUT_CTORS = {"dict", "list", "set", "Context", "defaultdict", "OrderedDict", "bytearray", "deque"}
+# a module-level object made by any other call can hold state too (threading.local(), an instance of a class, a
+# hash object, a cache decorator's wrapper ...) unless the callee is known to build an immutable value
+IMMUTABLE_CTORS = {"datetime", "date", "time", "timedelta", "timezone", "TypeVar", "NewType", "compile", "object", "type",
+                   "frozenset", "tuple", "int", "str", "bytes", "float", "bool", "toordinal", "namedtuple", "getLogger",
+                   "_NoDefault", "_missing_codec_lib", "Struct", "join", "dirname", "abspath", "get_distribution"}
 
 # entry points of the public API: name -> (module, qualified function, parameters allowed to be written)
 PUBLIC = {
@@ -60,7 +65,7 @@ def is_mutable_ctor(v):
     if isinstance(v, ast.Call):
         f = v.func
         n = f.id if isinstance(f, ast.Name) else (f.attr if isinstance(f, ast.Attribute) else "")
-        return n in MUT_CTORS
+        return n in MUT_CTORS or n not in IMMUTABLE_CTORS
     if isinstance(v, ast.BinOp):
         return is_mutable_ctor(v.left) or is_mutable_ctor(v.right)
     return False
